@@ -61,6 +61,17 @@ def gen_doc(rng):
                 parts[-1] = parts[-1][:-1] + " after table %d\n" % rng.randint(1, 9)
         elif r < 0.92:
             parts.append("----\n" if rng.random() < 0.7 else "---- %s\n" % inline(rng))
+        elif r < 0.96:
+            # a block-level HTML element whose content is a table or a rule, with text after it on the same line
+            tag = rng.choice(["div", "blockquote", "center"])
+            attr = rng.choice(["", " class=\"c%d\"" % rng.randint(1, 9)])
+            if rng.random() < 0.5:
+                t = c03.gen_table(rng, cid)
+                t["caption"] = None
+                body = c03.render_table(t, None)[:-1] + rng.choice(["", " after %d" % rng.randint(1, 9)]) + "\n"
+            else:
+                body = rng.choice(["x\n", ""]) + "----" + rng.choice(["", " after %d" % rng.randint(1, 9)]) + "\n"
+            parts.append("<%s%s>\n%s</%s>\n" % (tag, attr, body, tag))
         else:
             parts.append("; term : definition %d\n" % rng.randint(1, 9) if rng.random() < 0.3 else ": indented %s\n" % rng.choice(INLINE))
     return "".join(parts)
